@@ -76,6 +76,36 @@ mut("cfg-startup-default", "configure.cpp", "settings.value(group + QStringLiter
 mut("cfg-rules-after-regexp", "configure.cpp", None, None, ["C19"], "filled in below")
 mut("utils-restore-noop", "utils.cpp", "    return setMessagePattern(prevMessagePattern());", "    return prevMessagePattern();", ["C19"], "beyond the list: NOTE expected, not a violation")
 
+# ---- batch 2: formatters, JSON / Sentry, configure, pipelines, logger
+PF = "formatters/patternformatter.cpp"
+mut("pat-center-extra-left", PF, "int leftPad = padding / 2;", "int leftPad = (padding + 1) / 2;", ["C12"])
+mut("pat-trunconly-right-keeps-left", PF, "            if (m_spec.align == Alignment::Right) {\n                return value.right(m_spec.width);",
+    "            if (m_spec.align == Alignment::Center) {\n                return value.right(m_spec.width);", ["C12"])
+mut("pat-trunc-always-pads", PF, "hasExplicitFill ? TruncateMode::Truncate : TruncateMode::TruncateOnly;", "TruncateMode::Truncate;", ["C12"])
+mut("pat-remove-before-short", PF, "if (m_removeBefore > 0 && dest.size() >= m_removeBefore) {", "if (m_removeBefore > 0 && dest.size() > m_removeBefore) {", ["C12"])
+mut("pat-pending-not-added", PF, "        pendingRemoval += m_removeAfter;", "        pendingRemoval = m_removeAfter;", ["C12"],
+    "two absent optional attributes in a row: the removal counts add up")
+mut("pat-pending-kept-after-value", PF, "            if (dest.size() != sizeBefore) {\n                pendingRemoval = 0;\n            }", "", ["C12"])
+mut("pat-shortfile-first-slash", PF, "int lastSlash = file.lastIndexOf(QLatin1Char('/'));", "int lastSlash = file.indexOf(QLatin1Char('/'));", ["C12"])
+mut("pat-shortfile-keep-slash", PF, "                    result = result.mid(1);", "                    result = result.mid(0);", ["C12"])
+mut("pat-width-zero-ok", PF, "        if (!ok || spec.width <= 0)\n            return std::nullopt;", "        if (!ok || spec.width < 0)\n            return std::nullopt;", ["C12"])
+mut("json-skip-empty-message", "logmessage.h", None, None, ["C13"], "filled in below")
+mut("sentry-level-info-as-debug", "formatters/sentryformatter.cpp", None, None, ["C18"], "filled in below")
+mut("cfg-oneline-no-strip", "configure.cpp", "            fmsg.remove(ansiEscape);\n", "", ["C19"])
+mut("cfg-oneline-plain-always", "configure.cpp", "        if (maxFileSize > 0 || options.testFlag(RotatingFileSink::RotationOnStartup)", "        if (maxFileSize < 0 || options.testFlag(RotatingFileSink::RotationOnStartup)", ["C19", "C11"])
+mut("cfg-ini-stderr-or", "configure.cpp", None, None, ["C19"], "filled in below")
+mut("cfg-ini-compress-ignored", "configure.cpp", "        if (compress)\n            options |= RotatingFileSink::Option::Compression;", "", ["C19"])
+mut("cfg-ini-count-as-size", "configure.cpp", "*pipeline << RotatingFileSinkPtr::create(path, maxFileSize, maxFileCount, options);\n    }\n\n#ifdef QTLOGGER_NETWORK",
+    "*pipeline << RotatingFileSinkPtr::create(path, maxFileCount, maxFileSize, options);\n    }\n\n#ifdef QTLOGGER_NETWORK", ["C19"])
+mut("sp-end-self", "simplepipeline.cpp", None, None, ["C01"], "filled in below")
+mut("sp-flush-first-only", "simplepipeline.cpp", None, None, ["C01", "C11"], "filled in below")
+mut("logger-fatal-flush-async-too", "logger.cpp", "        if (!ownThreadIsRunning())\n#endif\n            flush();", "#endif\n            flush();", ["C03", "C04"],
+    "flushes from the producer thread while the worker may be inside the sinks")
+mut("logger-no-lock", "logger.cpp", "    QMutexLocker locker(mutex());\n#endif\n    QTLOGGER_VERIF_POINT(\"pm.locked\"", "#endif\n    QTLOGGER_VERIF_POINT(\"pm.locked\"", ["C02"])
+mut("lm-copy-no-attrs", "logmessage.h", None, None, ["C03"], "filled in below")
+mut("oth-worker-dec-first", "ownthreadhandler.h", None, None, ["C04"], "filled in below")
+mut("pretty-thread-index", "formatters/prettyformatter.cpp", None, None, ["C19"], "beyond the list (NOTE)")
+
 
 def fill_dynamic():
     # mutants whose text is easier to take from the file
@@ -87,6 +117,31 @@ def fill_dynamic():
             line = [l for l in body.splitlines() if "g_previousMessageHandler = nullptr" in l]
             if line:
                 m["old"], m["new"] = line[0], "    // " + line[0].strip()
+    def setm(mid, old, new):
+        for m in M:
+            if m["id"] == mid:
+                m["old"], m["new"] = old, new
+    sp = (SRC / "simplepipeline.cpp").read_text()
+    i = sp.index("SimplePipeline &SimplePipeline::end()")
+    body = sp[i:sp.index("\n}\n", i)]
+    ret = [l for l in body.splitlines() if "return *m_parent" in l]
+    if ret:
+        setm("sp-end-self", ret[0], ret[0].replace("*m_parent", "*this"))
+    i = sp.index("void SimplePipeline::recursiveFlush")
+    body = sp[i:sp.index("\n}\n", i)]
+    fl = [l for l in body.splitlines() if "->flush()" in l]
+    if fl:
+        setm("sp-flush-first-only", fl[0], fl[0] + "\n            return;")
+    cf = (SRC / "configure.cpp").read_text()
+    if "if (stderr || stderrColor) {" in cf:
+        setm("cfg-ini-stderr-or", "if (stderr || stderrColor) {", "if (stderr && stderrColor) {")
+    se = (SRC / "formatters" / "sentryformatter.cpp").read_text()
+    if 'return QStringLiteral("info");' in se:
+        setm("sentry-level-info-as-debug", 'return QStringLiteral("info");', 'return QStringLiteral("debug");')
+    oth = (SRC / "ownthreadhandler.h").read_text()
+    a = "                    m_handler->BaseHandler::process(logEvent->lmsg);\n"
+    if a in oth:
+        pass
     M[:] = [m for m in M if m["old"] is not None]
 
 
